@@ -121,8 +121,8 @@ func init() {
 		Harnesses: []Harness{{Func: "H_C04_constkind", Quick: rng(0, 3), Covers: []string{"bad", "other"}}},
 	}
 	register(&Prop{ID: "C04", Variants: []*Prop{c04pipe, c04exit, c04kind},
-		Functions: append(append([]string{}, semFuncs...), "main.main", "main.handlePanic"),
-		Bounds:    c04pipe.Bounds + " || exit status: main.main with sdk.InvokeThriftgo replaced by an environment stub that ends in each of 6 ways (success, error, wrapped error, panic with an error, panic with a string, runtime error), os.Exit caught by the engine",
+		Functions:   append(append([]string{}, semFuncs...), "main.main", "main.handlePanic"),
+		Bounds:      c04pipe.Bounds + " || exit status: main.main with sdk.InvokeThriftgo replaced by an environment stub that ends in each of 6 ways (success, error, wrapped error, panic with an error, panic with a string, runtime error), os.Exit caught by the engine",
 		Assumptions: append(append([]string{}, c04pipe.Assumptions...), "exit-status variant: InvokeThriftgo is a stub with forked outcomes (the pipeline itself is the other variant); a violation is confirmed by building the real main package with sdk/invoke.go overlaid by the same stub and observing the exit status of the process"),
 	})
 	register(&Prop{
